@@ -74,6 +74,14 @@ func csvGen(r *RNG, id string) *Case {
 	ref := randSeq(r, w, symACGT, false)
 	n := r.Range(1, 8)
 	names := randNamesCSV(r, n, "", true)
+	for i := range names { // this stream compares BYTES with a model whose strings are lists of code points: ASCII names only
+		names[i] = strings.Map(func(c rune) rune {
+			if c > 126 {
+				return 'u'
+			}
+			return c
+		}, names[i])
+	}
 	if r.Chance(1, 3) { // every name special
 		for i := range names {
 			names[i] += r.PickStr([]string{"\"", "%2C", "\"\"", "%2C\"", "\"x\"", "%2C%2C"})
